@@ -9,7 +9,9 @@
 #include <cstdio>
 #include <cstdlib>
 #include <cstring>
+#include <exception>
 #include <string>
+#include <typeinfo>
 #include <vector>
 
 int opensmt_cli_main(int argc, char * argv[]);
@@ -86,7 +88,21 @@ int runEngineX(Json const & plan) {
     logRaw("{\"ev\":\"run-begin\",\"engine\":\"X\",\"mode\":\"" + mode + "\"}");
     atexit(atExitRecord);
     setTickWatch(true);
-    int rc = opensmt_cli_main((int)args.size(), argv.data());
+    int rc = 0;
+    try {
+        rc = opensmt_cli_main((int)args.size(), argv.data());
+    } catch (std::exception const & e) {
+        // an exception leaving main() is std::terminate in the real executable
+        setTickWatch(false);
+        logRaw(std::string("{\"ev\":\"death\",\"kind\":\"TERMINATE\",\"what\":") + jsonEscape(std::string(typeid(e).name()) + ": " + e.what()) + "}");
+        fflush(stdout);
+        _exit(5);
+    } catch (...) {
+        setTickWatch(false);
+        logRaw("{\"ev\":\"death\",\"kind\":\"TERMINATE\",\"what\":\"unknown exception\"}");
+        fflush(stdout);
+        _exit(5);
+    }
     setTickWatch(false);
     fflush(stdout);
     logRaw("{\"ev\":\"x-return\",\"rc\":" + std::to_string(rc) + "}");
